@@ -363,7 +363,11 @@ where
             }
         };
 
+        let order = self.dist.len();
+
         for (v, w) in self.digraph.out_neighbors_weighted(u) {
+            assert!(v < order, "v = {v} isn't in the digraph");
+
             let w_next = w_prev + w;
             let dist_v = unsafe { *dist_ptr.add(v) };
 
